@@ -73,6 +73,36 @@ fn run_gm<Ty: EdgeType + Clone, S: BuildHasher + Default + Clone>(ops: &[GOp], o
                     if !same_nodes || e1 != e2 { v.push("from-graph-roundtrip-mismatch".into()); }
                     v
                 }
+                "ser" => {
+                    let val = serde_json::to_value(&g).unwrap();
+                    let mut v = vec![line("wire", &crate::c17::wire_nums(&val))];
+                    let b1: Result<GraphMap<i32, i32, Ty, S>, _> = bincode::deserialize(&bincode::serialize(&g).unwrap());
+                    let j1: Result<GraphMap<i32, i32, Ty, S>, _> = serde_json::from_str(&serde_json::to_string(&g).unwrap());
+                    match (b1, j1) {
+                        (Ok(b), Ok(j)) => { if battery(&b) != battery(&j) { v.push("codec-roundtrip-differs".into()); } }
+                        _ => v.push("codec-roundtrip-failed".into()),
+                    }
+                    let rb = crate::c17::bytemut(&g, a.first().copied().unwrap_or(0) as i64, &|h: GraphMap<i32, i32, Ty, S>| { let _ = battery(&h); let mut h = h; h.add_edge(1, 2, 3); h.remove_node(1); let _ = battery(&h); });
+                    if rb != "robust" { v.push(rb); }
+                    v
+                }
+                "deser" | "roundtrip" => {
+                    let val = if o.0 == "deser" { crate::c17::wire_value(&o.1) } else { serde_json::to_value(&g).unwrap() };
+                    match serde_json::from_value::<GraphMap<i32, i32, Ty, S>>(val) {
+                        Ok(h) => {
+                            let mut v = vec!["unit".to_string()];
+                            if o.0 == "roundtrip" {
+                                // the binary codec must reload the same map
+                                match bincode::deserialize::<GraphMap<i32, i32, Ty, S>>(&bincode::serialize(&g).unwrap()) {
+                                    Ok(b) => if battery(&b) != battery(&h) { v.push("codec-roundtrip-differs".into()); },
+                                    Err(_) => v.push("codec-roundtrip-failed".into()),
+                                }
+                            }
+                            g = h; v.extend(battery(&g)); v
+                        }
+                        Err(_) => vec!["err".into()],
+                    }
+                }
                 _ => panic!("bad op"),
             }
         }));
@@ -102,7 +132,35 @@ pub fn run_case(id: usize, h: &[i64], ops: &[GOp], out: &mut Out) {
     out.stat(&format!("hasher_{}", h[2]));
 }
 
-pub fn gen(seed: u64, n: usize, out: &mut Out) {
+pub fn gen(seed: u64, n: usize, out: &mut Out) { gen_with(seed, n, out, false) }
+
+/// a serde wire for a GraphMap: mostly loadable, with duplicate node weights, parallel and antiparallel edges, self-loops,
+/// and (rarely) holes, null edges, the wrong edge property or endpoints out of range
+fn gen_wire(r: &mut Rng, directed: bool, pool: &[i64]) -> Vec<i64> {
+    let nn = r.below(7);
+    let mut nodes: Vec<i64> = Vec::new();
+    for _ in 0..nn { if !nodes.is_empty() && r.chance(15) { let x = nodes[r.below(nodes.len())]; nodes.push(x); } else { nodes.push(pool[r.below(pool.len())]); } }
+    let mut v = vec![nn as i64]; v.extend(&nodes);
+    if r.chance(6) { v.extend_from_slice(&[1, r.below(nn + 1) as i64]); } else { v.push(0); }
+    v.push(if r.chance(6) { !directed as i64 } else { directed as i64 });
+    let ne = if nn == 0 { if r.chance(10) { 1 } else { 0 } } else { r.below(9) };
+    v.push(ne as i64);
+    let mut es: Vec<(i64, i64)> = Vec::new();
+    for _ in 0..ne {
+        if r.chance(4) { v.extend_from_slice(&[0, 0, 0, 0]); continue; }
+        let (a, b) = if !es.is_empty() && r.chance(25) { let e = es[r.below(es.len())]; if r.chance(50) { e } else { (e.1, e.0) } }
+            else if r.chance(5) { (r.below(nn + 2) as i64, nn as i64 + r.below(3) as i64) }
+            else if nn > 0 && r.chance(12) { let x = r.below(nn) as i64; (x, x) }
+            else { (r.below(nn.max(1)) as i64, r.below(nn.max(1)) as i64) };
+        es.push((a, b));
+        v.extend_from_slice(&[1, a, b, r.below(90) as i64]);
+    }
+    v
+}
+
+pub fn gen_serde(seed: u64, n: usize, out: &mut Out) { gen_with(seed ^ 0x17, n, out, true) }
+
+fn gen_with(seed: u64, n: usize, out: &mut Out, serde: bool) {
     let mut r = Rng::new(seed ^ 0xC03);
     let pool: [i64; 7] = [-3, -1, 0, 2, 5, 7, 11];
     for id in 0..n {
@@ -118,7 +176,8 @@ pub fn gen(seed: u64, n: usize, out: &mut Out) {
                 if want && !present.is_empty() { let e = present[r.below(present.len())]; if r.chance(50) { e } else { (e.1, e.0) } }
                 else if r.chance(12) { let x = pool[r.below(np)]; (x, x) } else { (pool[r.below(np)], pool[r.below(np)]) }
             };
-            match r.weighted(&[8, 9, 30, 12, 1, 4, 3, 4, 6, 5, 4, 4, 3, 3]) {
+            let wts: &[u32] = if serde { &[8, 9, 30, 12, 1, 4, 3, 2, 2, 2, 2, 2, 2, 2, 6, 8, 7] } else { &[8, 9, 30, 12, 1, 4, 3, 4, 6, 5, 4, 4, 3, 3] };
+            match r.weighted(wts) {
                 0 => ops.push(("add_node".into(), vec![nd(&mut r)])),
                 1 => { let x = nd(&mut r); present.retain(|e| e.0 != x && e.1 != x); ops.push(("remove_node".into(), vec![x])); }
                 2 => { let c = r.chance(20); let (a, b) = pr(&mut r, &present, c); present.push((a, b)); ops.push(("add_edge".into(), vec![a, b, r.below(90) as i64])); }
@@ -132,7 +191,10 @@ pub fn gen(seed: u64, n: usize, out: &mut Out) {
                 10 => ops.push(("neighbors".into(), vec![nd(&mut r)])),
                 11 => ops.push(("edges_directed".into(), vec![nd(&mut r), r.below(2) as i64])),
                 12 => ops.push(("to_index".into(), vec![nd(&mut r)])),
-                _ => ops.push(("into_graph".into(), vec![])),
+                13 => ops.push(("into_graph".into(), vec![])),
+                14 => ops.push(("ser".into(), vec![r.below(1 << 30) as i64])),
+                15 => ops.push(("roundtrip".into(), vec![])),
+                _ => { let w = gen_wire(&mut r, directed, &pool[..np]); present.clear(); ops.push(("deser".into(), w)); }
             }
         }
         run_case(id, &[directed as i64, 0, hasher], &ops, out);
